@@ -664,8 +664,14 @@ class SpecEval(object):
                 # identity of a message value: an opaque event is its own id; an acknowledgement
                 # dict literal {'event_name': N} is identified by 1000000 + N
                 v = self.ev(n.args[0], e)
+                if isinstance(v, VOpt):
+                    v = v.val
                 if isinstance(v, VOpaque):
                     return VInt(v.ident)
+                if isinstance(v, VRef) and isinstance(e.st.heap[v.ref], HObj):
+                    return VInt(z3.IntVal(v.ref))      # object identity: its heap address (distinct objects, distinct numbers)
+                if isinstance(v, VOldRef):
+                    return VInt(z3.IntVal(v.ref))
                 if isinstance(v, VRef) and isinstance(e.st.heap[v.ref], HDict):
                     h = e.st.heap[v.ref]
                     return VInt(1000000 + z3.Select(h.maps[0], z3.StringVal('event_name')))
